@@ -21,6 +21,7 @@ Model: `itp_rt` returns the model's g, h and object dumps; compared byte for byt
 import os
 
 from ..common import hexs, unhexs
+from .. import common
 from .. import itpgen as G
 
 RULE = ("shipped: every *.itp under the repo; text: 20 directed edge files + generated files (1-10 sections in any order, 30% repeated "
@@ -39,7 +40,7 @@ def _repo():
 
 def _path(ctx, tag):
     _counter[0] += 1
-    return os.path.join(ctx.scratch, f"c16_{_counter[0]}_{tag}.itp")
+    return os.path.join(ctx.scratch, f"c16_{_counter[0] % 5}_{tag}.itp")   # path strings reused on purpose
 
 
 def dump_obj(itp) -> str:
@@ -82,6 +83,7 @@ def run_real(ctx, data: bytes):
     from gaddlemaps.parsers import ItpFile, read_topology
     obs = {}
     f = _path(ctx, "f")
+    common.decoy(f, "itp")
     with open(f, "wb") as fh:
         fh.write(data)
     try:
